@@ -6,7 +6,7 @@
 (*   - explored exhaustively by TLC (Heap_MC: design check + generator),   *)
 (*   - used to validate observation logs of the real VM (Heap_Trace).      *)
 (*                                                                         *)
-(* Values:  [t |-> "n", v |-> Int]   number                                *)
+(* Values:  [t |-> "n", n |-> Int]   number                                *)
 (*          [t |-> "nil"]            nil                                   *)
 (*          [t |-> "r", r |-> Ref]   reference to an array on the heap     *)
 (*                                                                         *)
@@ -30,7 +30,7 @@ CONSTANTS MaxRef,          \* number of heap cells available
 
 Refs == 1..MaxRef
 Nil == [t |-> "nil"]
-Num(k) == [t |-> "n", v |-> k]
+Num(k) == [t |-> "n", n |-> k]
 RefV(r) == [t |-> "r", r |-> r]
 IsRef(v) == v.t = "r"
 
@@ -55,7 +55,7 @@ Acyclic(st) == \A r \in 1..st.used : ~CyclicAt(st.heap, r)
 RECURSIVE Tree(_, _)
 Tree(heap, v) ==
     IF IsRef(v)
-    THEN [t |-> "a", v |-> [i \in 1..Len(heap[v.r]) |-> Tree(heap, heap[v.r][i])]]
+    THEN [t |-> "a", a |-> [i \in 1..Len(heap[v.r]) |-> Tree(heap, heap[v.r][i])]]
     ELSE v
 
 \* structural equality as isEqualTo sees it on trees: nil never equals anything (not even nil)
@@ -63,9 +63,9 @@ RECURSIVE TreeEq(_, _)
 TreeEq(a, b) ==
     IF a.t # b.t THEN FALSE
     ELSE IF a.t = "nil" THEN FALSE
-    ELSE IF a.t = "n" THEN a.v = b.v
-    ELSE /\ Len(a.v) = Len(b.v)
-         /\ \A i \in 1..Len(a.v) : TreeEq(a.v[i], b.v[i])
+    ELSE IF a.t = "n" THEN a.n = b.n
+    ELSE /\ Len(a.a) = Len(b.a)
+         /\ \A i \in 1..Len(a.a) : TreeEq(a.a[i], b.a[i])
 \* find/pushBackUnique/"-" use value equality: same reference is equal even with nils inside
 ValEq(heap, a, b) ==
     IF IsRef(a) /\ IsRef(b) /\ a.r = b.r THEN TRUE
@@ -125,7 +125,7 @@ SortNums(s) ==
     IF Len(s) <= 1 THEN s
     ELSE LET rest == SortNums(Tail(s))
              x == Head(s)
-             k == Cardinality({ i \in 1..Len(rest) : rest[i].v < x.v })
+             k == Cardinality({ i \in 1..Len(rest) : rest[i].n < x.n })
          IN SubSeq(rest, 1, k) \o <<x>> \o SubSeq(rest, k + 1, Len(rest))
 AllNums(s) == \A i \in 1..Len(s) : s[i].t = "n"
 
